@@ -81,6 +81,13 @@ var specs = map[string]*PropSpec{
 		Stubs: []string{"SimReader/SimWriter with fault plans", "producer abort (event-stream cut)", "recording receiver"}, Real: commonReal,
 		StepKeys: []string{"operations", "reader_calls", "writer_calls"},
 	},
+	"C17": {
+		Level: "exploration", Race: true, QuickRuns: 3000, ThorRuns: 100000, QuickCap: 150 * time.Second, ThorCap: 28 * time.Minute, QuickWD: 20000, ThorWD: 40000,
+		Rule: "one run = one seeded schedule of 2-6 simulated caller threads x 1-3 operations each (marshal via ce.Marshal* or a shared iterator.Session, unmarshal via ce.Unmarshal* or a shared builder.Session, decode, validate) on 1-2 drawn value types that no session has seen before (struct/slice/map/pointer/recursive/unsupported kinds), with sharing mode (package-level only / iterator.Session / builder.Session / both; optionally the same input object marshaled by several threads) and scheduler bias (uniform, sticky, switch-at-install, round-robin, starvation) drawn per run. The tape picks the next thread at every yield point (operation boundary, reader/writer call, event, type-cache hook site). Invariants: no race-detector report with a library/dependency frame during the schedule (worker built with -race; thread hand-off via raw pipe syscalls so the detector sees only the library's own synchronisation); no deadlock/livelock (real blocking detected from goroutine state); each call's bytes/value/events/err==nil equal the same call run alone on fresh instances and sessions after the join. Non-trivial = the schedule has more steps than threads; distinct = distinct hashes of the (thread, site) sequence, i.e. distinct interleavings",
+		Stubs: []string{"thread scheduler (sched: raw-pipe hand-off, quiescence by goroutine-state inspection)", "SimReader/SimWriter"}, Real: append([]string{"sync.Map/WaitGroup type-cache protocols in iterator.Session and builder.Session (real blocking)", "Go race detector as invariant monitor"}, commonReal...),
+		StepKeys: []string{"scheduler_steps", "operations"},
+		Assumptions: []string{"schedules interleave at yield points (seam calls, events, hook sites), not at every memory access; races are still detected at access granularity on each explored schedule", "GOMAXPROCS does not influence the outcome: one simulated thread runs at a time (determinism self-test)"},
+	},
 	"C23": {
 		Level: "exploration", QuickRuns: 60000, ThorRuns: 1500000, QuickCap: 150 * time.Second, ThorCap: 25 * time.Minute, QuickWD: 10000, ThorWD: 30000,
 		Rule: "one run = one generated rules-valid event stream (array-heavy) reduced to chunking-independent items; reference = every array delivered as one whole-array event to a fresh CTE encoder (optionally behind the real validator). Variants of the same data: one chunk + one data event; drawn re-chunkings at legal chunk boundaries with each chunk's bytes split at drawn positions (element-aligned in half of the variants, arbitrary - inside elements and multi-byte characters - in the other half), zero-length chunks; one byte per data event. Oracle: output text byte-identical to the reference. By-product for the second sentence: the reference text decodes and the decoded events encode to the same text. Non-trivial = the variant differs from the one-chunk/one-event delivery; distinct = hash of (stream, variant events)",
